@@ -119,18 +119,18 @@ type domainer interface{ InDomain() bool }
 type modelCanon interface{ CanonModel(string) string }
 
 type Stream struct {
-	Name     string
-	Quick    int
-	Thorough int
-	New      func() Case                   // zero value for decoding replays / corpus
-	Gen      func(r *Rng, i int) Case      // random generation
-	Enum     func(tier string, yield func(Case)) // optional exhaustive enumeration
+	Name           string
+	Quick          int
+	Thorough       int
+	New            func() Case                         // zero value for decoding replays / corpus
+	Gen            func(r *Rng, i int) Case            // random generation
+	Enum           func(tier string, yield func(Case)) // optional exhaustive enumeration
 	EnumExhaustive bool
-	Parallel int // >0: Run() is called from that many goroutines
-	BatchRun func(cases []Case) []string // optional: run all cases at once (child-process pools)
-	ShrinkBudget int // evaluations per failing case (default 400)
-	MaxShrinks   int // failing cases shrunk per stream (default 60)
-	Rule     string
+	Parallel       int                         // >0: Run() is called from that many goroutines
+	BatchRun       func(cases []Case) []string // optional: run all cases at once (child-process pools)
+	ShrinkBudget   int                         // evaluations per failing case (default 400)
+	MaxShrinks     int                         // failing cases shrunk per stream (default 60)
+	Rule           string
 }
 
 type Property struct {
